@@ -14,6 +14,7 @@ import (
 
 	"verifharness/gen"
 	"verifharness/inst"
+	"verifharness/ref"
 )
 
 // A block-decoding case: (src, len(dst), dict) plus where the three slices are placed.
@@ -29,6 +30,8 @@ type decCase struct {
 	DictSpare int    `json:"dictspare,omitempty"` // spare capacity behind dict
 	SparePat  int    `json:"sparepat,omitempty"`  // content of the spare capacities of src and dict
 	NoArena   bool   `json:"noarena,omitempty"`   // cases larger than the arenas: plain heap slices, canaries around dst
+	DictZeros int64  `json:"dictzeros,omitempty"` // NoArena: the dictionary is this many zero bytes followed by Dict (a dictionary of 4 GiB and more without shipping it)
+	HashOut   bool   `json:"hashout,omitempty"`   // NoArena: Out carries a digest of dst[:n] instead of the bytes (outputs of gigabytes)
 }
 
 type decResult struct {
@@ -183,7 +186,13 @@ func execDecodeHeap(c decCase) (res decResult) {
 	if len(c.Dict) > 0 {
 		dict = append([]byte(nil), c.Dict...)
 	}
-	prefill(dst, c.Fill)
+	if c.DictZeros > 0 {
+		dict = make([]byte, c.DictZeros+int64(len(c.Dict))) // (fresh pages from the OS: nothing but the tail is ever touched)
+		copy(dict[c.DictZeros:], c.Dict)
+	}
+	if c.DstLen < 1<<26 {
+		prefill(dst, c.Fill)
+	}
 	inst.FillCanary(before)
 	inst.FillCanary(after)
 	old := debug.SetPanicOnFault(true)
@@ -210,7 +219,7 @@ func execDecodeHeap(c decCase) (res decResult) {
 	if i := inst.CheckCanary(before); i >= 0 {
 		return decResult{Status: "canary", N: n, Detail: fmt.Sprintf("byte %d before dst was modified (n=%d err=%v)", i-len(before), n, err)}
 	}
-	if !bytes.Equal(src, c.Src) || !bytes.Equal(dict, c.Dict) {
+	if !bytes.Equal(src, c.Src) || (c.DictZeros == 0 && !bytes.Equal(dict, c.Dict)) || (c.DictZeros > 0 && !bytes.Equal(dict[c.DictZeros:], c.Dict)) {
 		return decResult{Status: "canary", N: n, Detail: "src or dict was modified by the decoder"}
 	}
 	if err != nil {
@@ -218,7 +227,14 @@ func execDecodeHeap(c decCase) (res decResult) {
 	}
 	res = decResult{Status: "ok", N: n}
 	if n >= 0 && n <= len(dst) {
-		res.Out = append([]byte(nil), dst[:n]...)
+		if c.HashOut {
+			var h ref.XXH32Stream
+			h.WriteFast(dst[:n])
+			sum := h.Sum32()
+			res.Out = []byte{byte(sum), byte(sum >> 8), byte(sum >> 16), byte(sum >> 24), dst[0], dst[n/2], dst[n-1]}
+		} else {
+			res.Out = append([]byte(nil), dst[:n]...)
+		}
 	}
 	return res
 }
